@@ -2,6 +2,7 @@ SPECIFICATION Spec
 CONSTANT MaxLen = 4
 CONSTANT MaxAvail = 6
 CONSTANT Mode = "split"
+CONSTANT MaxMsgs = 2
 CONSTANT Kinds = {"msg", "notice"}
 INVARIANT SplitOK
 CHECK_DEADLOCK FALSE
